@@ -678,3 +678,33 @@ def rule_missingcode(ctx) -> RuleResult:
                        "group of their own instead of being dropped")
     res.inst(f"{n_defs} code definitions examined", "count")
     return res
+
+
+# ---------------------------------------------------------------------------------------------
+# R-COUNTWIDTH (C01, C20): counting kernels accumulate in a platform integer.
+# aggregate_flox's kernels accumulate in the dtype of the array they are given unless a dtype is passed (_np_grouped_op: `if dtype is None:
+# dtype = array.dtype`).  The count kernel sums a validity mask: the mask must be widened (astype(int)) before it is summed, or a wide dtype
+# passed explicitly; a bool/uint8 view counts modulo 256 (mean of a group with 300 members divides by 44).
+def rule_countwidth(ctx) -> RuleResult:
+    res = RuleResult("R-COUNTWIDTH", "counting kernels sum a mask that was widened to a platform integer", min_instances=1)
+    n = 0
+    for q, f in sorted(ctx.prog.funcs.items()):
+        if not q.startswith("aggregate_flox.") or isinstance(f.node, ast.Lambda) or not ("len" in f.name or "count" in f.name):
+            continue
+        w = Width(f, set(), set())
+        for c in walk_own(f.node):
+            if not (isinstance(c, ast.Call) and norm(c.func) in ("sum", "nansum", "_np_grouped_op") and len(c.args) >= 2):
+                continue
+            n += 1
+            data = c.args[1]
+            got = w.expr(data)
+            dk = kwarg(c, "dtype")
+            wide_kw = dk is not None and norm(dk) in WIDE
+            res.inst(f"{q}: {norm(c.func)}(group_idx, {norm(data)[:50]}, ...): summed in {got}" + (f" with dtype={norm(dk)}" if dk is not None else ""), f"{q}|{c.lineno}")
+            if got != INTP and not wide_kw:
+                res.report(f"{q}|narrow-count|{norm(data)[:30]}", f"flox/aggregate_flox.py:{c.lineno}", q,
+                           f"'{norm(data)[:60]}' is summed without being widened to a platform integer ({got}): the kernels accumulate in the dtype of their "
+                           "input when no dtype is passed, so the count wraps at 256 (bool / uint8) -- mean / nanmean with engine='flox' divide by count % 256")
+    if n == 0:
+        raise AnalysisError("aggregate_flox: no counting kernel (nanlen) summing a mask found (anchor)")
+    return res
